@@ -136,7 +136,9 @@ def rule_fold(ctx):
                                 bq, aq = divmod(F, Cc)
                                 kept = (lohi[0][0] <= bq < R + lohi[0][1]) and (lohi[1][0] <= aq < Cc + lohi[1][1])
                                 cell = (bq - lohi[0][0], aq - lohi[1][0]) if kept else None
-                                want = (pb.k - 1, pa.k - 1) if (pa.kind == 'in' and pb.kind == 'in') else None
+                                ka = {'in': pa.k, 'at_first': 1}.get(pa.kind)
+                                kb = {'in': pb.k, 'at_first': 1}.get(pb.kind)
+                                want = (kb - 1, ka - 1) if (ka is not None and kb is not None) else None
                                 if cell != want:
                                     problem = ('carrier class %s, AM class %s (E1=%d, E2=%d) -> %s, expected %s'
                                                % (pa, pb, E1, E2, 'cell [AM %d, carrier %d]' % cell if cell else 'dropped',
